@@ -101,6 +101,21 @@ def gen_int(rnd, name):
 
 
 def gen_f32(rnd, hashable):
+    if hashable:
+        # set elements / mapping keys: only values that are exact in
+        # binary32 and not -0.0, so that two distinct keys never collide
+        # after rounding (languages disagree on whether 0.0 and -0.0 are one
+        # key, so "the same value" would not be well defined)
+        if rnd.random() < 0.4:
+            return rnd.choice([0.0, 1.0, -1.0, 0.5, 16777216.0, FLT_MAX,
+                               -FLT_MAX, float("inf"), float("-inf"),
+                               1.401298464324817e-45])
+        b = rnd.getrandbits(32)
+        if (b & 0x7F800000) == 0x7F800000:
+            b &= ~0x00800000 & 0xFFFFFFFF
+        if b == 0x80000000:
+            b = 0
+        return refcodec.f32_from_bits(b)
     k = rnd.randrange(12)
     specials = [0.0, -0.0, 1.0, -1.0, 0.1, 1 / 3, 16777217.0, 16777219.0,
                 1e-45, 1e-46, 7e-46, 1.17549435e-38, 1.1754942e-38, FLT_MAX,
@@ -121,6 +136,9 @@ def gen_f32(rnd, hashable):
 
 
 def gen_f64(rnd, hashable):
+    if hashable and rnd.random() < 0.5:
+        return rnd.choice([0.0, 1.0, -1.0, 5e-324, 1.7976931348623157e308,
+                           float("inf"), float("-inf"), 0.1])
     k = rnd.randrange(10)
     specials = [0.0, -0.0, 1.0, 5e-324, 2.2250738585072014e-308,
                 1.7976931348623157e308, -1.7976931348623157e308,
@@ -134,7 +152,12 @@ def gen_f64(rnd, hashable):
     b = rnd.getrandbits(64)
     if (b & 0x7FF0000000000000) == 0x7FF0000000000000:
         b &= ~0x0010000000000000 & 0xFFFFFFFFFFFFFFFF
-    return refcodec.f64_from_bits(b)
+    if hashable and b == 1 << 63:
+        b = 0
+    v = refcodec.f64_from_bits(b)
+    if hashable and v == 0.0:
+        return 0.0
+    return v
 
 
 def gen_str(rnd):
